@@ -59,6 +59,16 @@ func init() { propFactories["C07"] = newC07 }
 
 func (p *c07) ID() string { return "C07" }
 
+func init() {
+	c07Corpus = append(c07Corpus,
+		// names that are a parameter / loop variable in one place and a global in another
+		`function share(part, limit) { return part / limit; } if (!limit) { limit = 100; } r = share(10, B); t = 0; foreach x in Items { if (x < limit) { t = t + x; } } hv(t, limit); return t;`,
+		`function scan(last) { foreach last in [7, 8, 9] { if (last == 8) { return last; } } return 0; } q = scan(1); last = q + A; hv(last); return last;`,
+		`foreach total in 1..3 { hv(total); if (total == A) { return total; } } total = 50; hv(total); return total;`,
+		`function f(n) { local acc; acc = 10 / n; return acc; } acc = 5; n = 2; r = f(B); hv(acc, n, r); return acc + n;`,
+	)
+}
+
 var c07Objs = []interface{}{
 	nil,
 	Obj{A: 2, B: 1, C: 5, S: "hall", Items: []int{3, 1, 2}},
